@@ -459,12 +459,27 @@ def cve_closed_form(frames, pos, dt, R, lv, vlv):
     cons = [a * b for a, b in zip(dx, dx[1:])]
     mc = sum(cons) / len(cons)
     mca = sum(abs(c) for c in cons) / len(cons)
+    s = adt / dt  # average frame step
     if not lv:
-        return ("ok", m2 / (2 * adt) + mc / adt, R * m2 + (2 * R - 1) * mc, m2 / (2 * adt) + mca / adt, R * m2 + abs(2 * R - 1) * mca)
+        D, sig2 = m2 / (2 * adt) + mc / adt, R * m2 + (2 * R - 1) * mc
+        sD, ssig2 = m2 / (2 * adt) + mca / adt, R * m2 + abs(2 * R - 1) * mca
+
+        def var(D, sig2, sign):  # Vestergaard 2016 eq. 22 (1D), epsilon = sigma^2/dt - 2 R D (times D)
+            eps = sig2 / dt + sign * 2 * R * D
+            return ((6 * (s * D) ** 2 + 4 * eps * s * D + 2 * eps**2) / (n * s**2) + 4 * (s * D + eps) ** 2 / (n**2 * s**2))
+
+        return ("ok", D, sig2, sD, ssig2, var(D, sig2, -1), var(sD, ssig2, 1))
     if vlv is None:
         return ("ValueError",)
-    lv = Fr(lv)
-    return ("ok", (m2 - 2 * lv) / (2 * (adt - 2 * R * dt)), lv, (m2 + 2 * abs(lv)) / (2 * (adt - 2 * R * dt)), abs(lv))
+    lv, vlv = Fr(lv), Fr(vlv)
+    D = (m2 - 2 * lv) / (2 * (adt - 2 * R * dt))
+    sD = (m2 + 2 * abs(lv)) / (2 * (adt - 2 * R * dt))
+
+    def var(D, sign):  # Vestergaard 2016 eq. 24 (1D)
+        eps = abs(lv) / dt + sign * 2 * R * D if sign > 0 else lv / dt - 2 * R * D
+        return (2 * (s * D) ** 2 + 4 * eps * s * D + 3 * eps**2) / (n * (s - 2 * R) ** 2) + abs(vlv) / ((s - 2 * R) ** 2 * dt**2)
+
+    return ("ok", D, lv, sD, abs(lv), var(D, -1), var(sD, 1))
 
 
 def normal_equations(pts, value, lv, dt):
@@ -640,8 +655,8 @@ def oracle(case, ia):
                         return f"{op}: diffusion constant {float(got[0])!r} is not the closed-form CVE value {float(exp[1])!r}"
                     if not near(got[2], exp[2], exp[4]):
                         return f"{op}: localization variance {float(got[2])!r} is not the closed-form value {float(exp[2])!r}"
-                    if isinstance(got[1], float) or got[1] < 0:
-                        return f"{op}: std_err^2 is negative or not finite"
+                    if isinstance(got[1], float) or not near(got[1], exp[5], exp[6]):
+                        return f"{op}: std_err^2 is not the documented variance of the CVE estimate (eq. 22/24 of Vestergaard 2016)"
             elif op == "ols":
                 L = calls[idx[("base", op)]]["L"]
                 if L < 2:
@@ -1132,7 +1147,7 @@ def cases(tier, rng):
     yield from malformed(rng.fork("c09-malformed"), 40 if quick else 600)
     yield from small_scope(quick)
     r = rng.fork("c09-tracks")
-    for i in range(260 if quick else 5000):
+    for i in range(260 if quick else 4000):
         sub = r.fork(i)
         big = (not quick) and i % 250 == 0
         c = gen_track_case(sub, 60 if not big else 500)
@@ -1142,7 +1157,7 @@ def cases(tier, rng):
         c["subseed"] = i
         yield c
     r = rng.fork("c09-ens")
-    for i in range(70 if quick else 1500):
+    for i in range(70 if quick else 1200):
         sub = r.fork(i)
         c = gen_ens_case(sub, 12 if quick else 50, 30)
         c["subseed"] = i
